@@ -145,6 +145,30 @@ mod imp {
             SumForm { name: "Sum<AffinePoint> over flat_map()", f: |l| l.iter().flat_map(|e| Some(af(e))).sum() },
             SumForm { name: "Sum<Element> over chain(skip_while)", f: |l| l.iter().copied().skip_while(|_| false).chain(std::iter::empty()).sum() },
             SumForm { name: "Sum<Element> over from_fn", f: |l| { let mut i = 0; std::iter::from_fn(|| { let r = l.get(i).copied(); i += 1; r }).sum() } },
+            // references into a table: equal items are the *same* reference (runs of pointer-identical items)
+            SumForm { name: "Sum<&AffinePoint> over references into a deduplicated table", f: |l| {
+                let mut table: Vec<Af> = Vec::new();
+                let mut idx: Vec<usize> = Vec::new();
+                for e in l {
+                    let a = af(e);
+                    match table.iter().position(|t| t.xy() == a.xy()) {
+                        Some(i) => idx.push(i),
+                        None => { table.push(a); idx.push(table.len() - 1); }
+                    }
+                }
+                idx.iter().map(|i| &table[*i]).sum()
+            } },
+            SumForm { name: "Sum<&Element> over references into a deduplicated table", f: |l| {
+                let mut table: Vec<El> = Vec::new();
+                let mut idx: Vec<usize> = Vec::new();
+                for e in l {
+                    match table.iter().position(|t| t.verif_xyzt() == e.verif_xyzt()) {
+                        Some(i) => idx.push(i),
+                        None => { table.push(*e); idx.push(table.len() - 1); }
+                    }
+                }
+                idx.iter().map(|i| &table[*i]).sum()
+            } },
             // call shapes: a sum whose iterator itself computes sums (re-entrancy of any scratch state)
             SumForm { name: "Sum<Element> of row sums (nested Sum<Element>)", f: |l| l.chunks(3).map(|r| r.iter().copied().sum::<El>()).sum() },
             SumForm { name: "Sum<&Element> of row sums (nested, collected rows of &Element)", f: |l| { let rows: Vec<El> = l.chunks(2).map(|r| r.iter().sum::<El>()).collect(); rows.iter().chain(std::iter::empty()).sum() } },
@@ -230,6 +254,36 @@ mod imp {
                 let bases = El::batch_convert_to_mul_base(p);
                 let bi: Vec<_> = s.iter().map(|x| x.into_bigint()).collect();
                 El::msm_bigint(&bases, &bi)
+            } },
+            // mismatched lengths: the unchecked entry points chop both lists to the common prefix (documented in
+            // ark-ec); the harness hands over extra bases resp. extra scalars and expects the sum over the prefix
+            MsmForm { name: "VariableBaseMSM::msm_unchecked (extra bases)", f: |p, s| {
+                let mut bases: Vec<Af> = p.iter().map(af).collect();
+                bases.push(af(&El::GENERATOR));
+                bases.extend(p.iter().take(3).map(af));
+                El::msm_unchecked(&bases, s)
+            } },
+            MsmForm { name: "VariableBaseMSM::msm_unchecked (extra scalars)", f: |p, s| {
+                let bases: Vec<Af> = p.iter().map(af).collect();
+                let mut sc = s.to_vec();
+                sc.push(Fr::from(5u64));
+                sc.extend(s.iter().take(2).copied());
+                El::msm_unchecked(&bases, &sc)
+            } },
+            MsmForm { name: "VariableBaseMSM::msm_bigint (extra bases)", f: |p, s| {
+                let mut bases: Vec<Af> = p.iter().map(af).collect();
+                bases.push(af(&(El::GENERATOR + El::GENERATOR)));
+                bases.extend(p.iter().take(2).map(af));
+                let bi: Vec<_> = s.iter().map(|x| x.into_bigint()).collect();
+                El::msm_bigint(&bases, &bi)
+            } },
+            MsmForm { name: "VariableBaseMSM::msm (mismatched lengths must be refused)", f: |p, s| {
+                let mut bases: Vec<Af> = p.iter().map(af).collect();
+                bases.push(af(&El::GENERATOR));
+                match El::msm(&bases, s) {
+                    Err(_) => El::msm_unchecked(&bases[..p.len()], s),
+                    Ok(_) => El::GENERATOR * Fr::from(0xBADu64) + El::msm_unchecked(&bases[..p.len()], s),
+                }
             } },
             MsmForm { name: "VariableBaseMSM::msm_chunks", f: |p, s| {
                 let bases: Vec<Af> = p.iter().map(af).collect();
